@@ -159,7 +159,7 @@ func main() {
 	seen := map[string]bool{}
 	rng := lib.NewRng(*seed)
 	fixed := lib.NewRng(11)
-	nProg := 90
+	nProg := 75
 	if *tier == "thorough" {
 		nProg = 240
 	}
